@@ -109,7 +109,10 @@ class SFTPAttributes:
         if self._flags & self.FLAG_EXTENDED:
             count = msg.get_int()
             for i in range(count):
-                self.attr[msg.get_string()] = msg.get_string()
+                # NOTE: read the name first; in a subscript assignment Python
+                # evaluates the right-hand side before the subscript.
+                name = msg.get_string()
+                self.attr[name] = msg.get_string()
 
     def _pack(self, msg):
         self._flags = 0
